@@ -348,6 +348,18 @@ func runC17(r *mon.Run) {
 			opts := &secec.ECDSAOptions{Encoding: secec.SignatureEncoding(v % 3), SelfVerify: v >= 3}
 			return func() { _, _ = k.Sign(&fixedReader{data: entropy}, digest, opts) }
 		}, 6},
+		// the per-signature nonce is a secret too: fixed key and digest, the 32 entropy
+		// bytes (hence the nonce, R and s) range over the secret set
+		{"SignRaw/secret-entropy(nonce varies)", func(s c17Secret, v int) func() {
+			k := mustPriv(mustHexBig("00c9afa9d845ba75166b5c215767b1d6934e50c3db36e89b127b8a622b120f67"))
+			ent := b32(s.v)
+			return func() { _, _, _, _ = k.SignRaw(&fixedReader{data: ent}, digest) }
+		}, 1},
+		{"Schnorr.Sign/secret-aux(nonce varies)", func(s c17Secret, v int) func() {
+			k, _ := bitcoin.NewSchnorrPrivateKey(b32(mustHexBig("00c9afa9d845ba75166b5c215767b1d6934e50c3db36e89b127b8a622b120f67")))
+			aux := b32(s.v)
+			return func() { _, _ = k.Sign(&fixedReader{data: aux}, msg, nil) }
+		}, 1},
 		{"NewSchnorrPrivateKey", func(s c17Secret, v int) func() {
 			bts := b32(s.v)
 			return func() { _, _ = bitcoin.NewSchnorrPrivateKey(bts) }
